@@ -4,6 +4,7 @@ import Gv.Driver.Settings
 import Gv.Driver.Signature
 import Gv.Driver.Layout
 import Gv.Driver.Gen
+import Gv.Driver.Eval
 
 open Gv Gv.Sexp Gv.Driver
 
@@ -21,6 +22,7 @@ def dispatch (req : Sexp) : Sexp :=
   | some "cli" => handleCli req
   | some "misc" => handleMisc req
   | some "gen" => handleGen req
+  | some "eval" => handleEval req
   | _ => mkList "err" [.atom "unknown-request"]
 
 partial def loop (hin hout : IO.FS.Stream) : IO Unit := do
